@@ -219,7 +219,11 @@ def main():
             print("UNDECIDED property=%s contract-drift %s" % (pid, d))
         for o in rep["vacuity"]:
             print("UNDECIDED property=%s vacuous-assumption %s" % (pid, o["name"]))
-        write_evidence(pid, P, tier, seed, t0, rep, None, results)
+        extra = {}
+        if tier == "thorough":
+            extra, rc2 = thorough_extras(pid, P, workdir, rep)
+            rc = max(rc, rc2)
+        write_evidence(pid, P, tier, seed, t0, rep, None, results, extra)
         n = len(rep["obligations"])
         d = sum(1 for o in rep["obligations"] if o["verdict"] == "unsat")
         print("%s %s: %d/%d obligations discharged over %d functions, %d known findings, %d violations, %.1fs" % (
@@ -232,7 +236,120 @@ def main():
             print("kept", workdir)
 
 
-def write_evidence(pid, P, tier, seed, t0, rep, fatal, results=None):
+def run_canary(pkg, testfile, runpat, workdir):
+    """Runs a replay test file against the real package through `go test -overlay`. Returns (passed, tail of output)."""
+    src = os.path.join(VERIF, testfile)
+    dst = os.path.join(REPO, pkg.lstrip("./"), os.path.basename(testfile))
+    ov = os.path.join(workdir, "ov_%s.json" % os.path.basename(testfile))
+    with open(ov, "w") as f:
+        json.dump({"Replace": {dst: src}}, f)
+    p = subprocess.run(["go", "test", "-overlay", ov, "-vet=off", "-count=1", "-timeout", "120s", "-run", "^" + runpat + "$", pkg + "/"],
+                       cwd=REPO, env=go_env(), stdout=subprocess.PIPE, stderr=subprocess.STDOUT, text=True)
+    tail = "\n".join(l for l in p.stdout.splitlines() if not l.startswith("{"))[-800:]
+    return p.returncode == 0, tail
+
+
+def thorough_extras(pid, P, workdir, rep):
+    """Thorough tier: replay canaries of fixed / open findings, must-fail mutant corpus, second-solver agreement."""
+    extra = {"canaries": [], "mutants": [], "agreement": {}}
+    rc = 0
+    # 1. fixed findings: their inputs must pass on this tree (a fixed entry suppresses nothing)
+    for pkg, tf, pat in P.get("canaries", []):
+        ok, tail = run_canary(pkg, tf, pat, workdir)
+        extra["canaries"].append({"test": pat, "kind": "fixed-finding input must pass", "passed": ok})
+        if not ok:
+            d = os.path.join(VERIF, "out", "replay", pid)
+            os.makedirs(d, exist_ok=True)
+            path = os.path.join(d, "canary_%s.json" % pat)
+            with open(path, "w") as f:
+                json.dump({"property": pid, "obligation": "replay canary " + pat, "failing_input": "see " + tf, "output": tail}, f, indent=1)
+            print("VIOLATION property=%s replay=%s canary %s fails again on the real code: %s" % (pid, path, pat, tail.strip().splitlines()[-1] if tail.strip() else ""))
+            rc = 1
+    for sc in P.get("script_canaries", []):
+        p = subprocess.run([os.path.join(VERIF, sc), REPO], stdout=subprocess.PIPE, stderr=subprocess.STDOUT, text=True)
+        extra["canaries"].append({"test": sc, "kind": "fixed-finding script must pass", "passed": p.returncode == 0})
+        if p.returncode != 0:
+            d = os.path.join(VERIF, "out", "replay", pid)
+            os.makedirs(d, exist_ok=True)
+            path = os.path.join(d, "canary_script.json")
+            with open(path, "w") as f:
+                json.dump({"property": pid, "obligation": "replay script " + sc, "output": p.stdout[-1500:]}, f, indent=1)
+            print("VIOLATION property=%s replay=%s %s fails again on the real code" % (pid, path, sc))
+            rc = 1
+    # 2. open findings: their stored input must still fail (otherwise the entry is stale)
+    for pkg, tf, pat in P.get("known_canaries", []):
+        ok, tail = run_canary(pkg, tf, pat, workdir)
+        extra["canaries"].append({"test": pat, "kind": "open-finding input still fails", "still_fails": not ok})
+        if ok:
+            print("NOTE property=%s the stored input of open finding %s no longer fails on the real code: the known-findings entry is stale" % (pid, pat))
+    # 3. must-fail corpus: every mutant must make some baseline clause fail
+    corpus = load_json(os.path.join(VERIF, "selftest", "mutants.json"), {}).get(pid, [])
+    baseline = load_json(BASELINE, {})
+    known = load_json(KNOWN, {"findings": []})
+    for i, m in enumerate(corpus):
+        f = os.path.join(REPO, m["file"])
+        try:
+            src = open(f).read()
+        except OSError:
+            extra["mutants"].append({"note": m.get("note"), "status": "file missing"})
+            continue
+        if src.count(m["old"]) < 1:
+            extra["mutants"].append({"note": m.get("note"), "status": "anchor not found (code changed)"})
+            continue
+        mf = os.path.join(workdir, "mut_%d.go" % i)
+        with open(mf, "w") as out:
+            out.write(src.replace(m["old"], m["new"], 1))
+        ov = os.path.join(workdir, "mut_%d.json" % i)
+        with open(ov, "w") as out:
+            json.dump({f: mf}, out)
+        results = []
+        bad = False
+        for gi, (pkgs, only) in enumerate(P["groups"]):
+            res, log = run_govc(pkgs, only, 10, workdir, "m%d_g%d" % (i, gi), overlay=ov)
+            if res is None:
+                bad = True
+                break
+            results.append(res)
+        if bad:
+            extra["mutants"].append({"note": m.get("note"), "status": "mutant does not type-check"})
+            continue
+        r2 = classify(pid, results, baseline, known)
+        caught = [o["name"] for o in r2["violations"]][:3]
+        extra["mutants"].append({"note": m.get("note"), "file": m["file"], "status": "caught" if caught else "MISSED", "failing": caught})
+        if not caught:
+            print("SELFTEST property=%s mutant not caught: %s (%s)" % (pid, m.get("note"), m["file"]))
+    # 4. agreement: discharged obligations re-checked with the other solvers (sample)
+    import random
+    rnd = random.Random(int(os.environ.get("VERIF_SEED", "0") or 0))
+    dis = [o for o in rep["obligations"] if o["verdict"] == "unsat" and o.get("smt_file") and os.path.exists(o["smt_file"])]
+    sample = dis if len(dis) <= 40 else rnd.sample(dis, 40)
+    agree = {"checked": 0, "confirmed_by_second_solver": 0, "second_solver_undecided": 0, "disagreements": []}
+    for o in sample:
+        others = [s for s in ("z3", "cvc5", "z3-new") if s != o["solver"]]
+        got = None
+        for sname in others[:2]:
+            cmd = {"z3": ["z3", "-T:20"], "z3-new": ["z3-new", "-T:20"], "cvc5": ["cvc5", "--tlimit=20000"]}[sname] + [o["smt_file"]]
+            try:
+                p = subprocess.run(cmd, stdout=subprocess.PIPE, stderr=subprocess.STDOUT, text=True, timeout=25)
+                first = (p.stdout.strip().splitlines() or [""])[0]
+            except subprocess.TimeoutExpired:
+                first = "timeout"
+            if first in ("unsat", "sat"):
+                got = (sname, first)
+                break
+        agree["checked"] += 1
+        if got is None:
+            agree["second_solver_undecided"] += 1
+        elif got[1] == "unsat":
+            agree["confirmed_by_second_solver"] += 1
+        else:
+            agree["disagreements"].append({"obligation": o["name"], "first": o["solver"], "second": got[0]})
+            print("UNDECIDED property=%s solver-disagreement %s: %s says unsat, %s says sat" % (pid, o["name"], o["solver"], got[0]))
+    extra["agreement"] = agree
+    return extra, rc
+
+
+def write_evidence(pid, P, tier, seed, t0, rep, fatal, results=None, extra=None):
     evdir = os.environ.get("VERIF_EVIDENCE_DIR") or os.path.join(VERIF, "evidence")
     os.makedirs(evdir, exist_ok=True)
     path = os.path.join(evdir, pid + ".json")
@@ -286,6 +403,8 @@ def write_evidence(pid, P, tier, seed, t0, rep, fatal, results=None):
         "evaluations": len(obls), "distinct_nontrivial": len(set(o["name"] for o in obls if not o.get("trivial"))),
         "rule": "one evaluation = one proof obligation generated from the current source; non-trivial = not discharged syntactically",
     }
+    if extra:
+        cov["thorough"] = extra
     ev["coverage"] = cov
     ev["assumptions"] = assumptions
     ev["violations"] = len(rep["violations"])
